@@ -319,7 +319,7 @@ def search(pid, tier, seed, escalate, hints):
     """property statement evaluated on the implementation's histories"""
     if pid == 'C04':
         import oracle_c04
-        return oracle_c04.search(tier, seed, escalate)
+        return oracle_c04.search(tier, seed, escalate, hints)
     rng = random.Random(seed * 77 + 1)
     out = []
     n_checked = 0
@@ -356,7 +356,7 @@ def search(pid, tier, seed, escalate, hints):
             break
     if pid == 'C04':
         import oracle_c04
-        return oracle_c04.search(tier, seed, escalate)
+        return oracle_c04.search(tier, seed, escalate, hints)
     if pid == 'C13':
         import fam_rel
         ws, k = fam_rel.search('C20', tier, seed, escalate, [])
